@@ -292,7 +292,11 @@ def main(tier, seed, only=None):
             cut = float(X.frac(inp["cut"]))
             q = [float(X.frac(v)) for v in inp["q"]]
             pts = [[float(X.frac(v)) for v in row] for row in inp["points"]]
-            msgs, _ = X.oracle_cl(nat, cut, q, pts) if nat else (["native replay driver did not compile"], None)
+            try:
+                ex = (X.frac(inp["cut"]), [X.frac(v) for v in inp["q"]], [[X.frac(v) for v in row] for row in inp["points"]])
+            except Exception:
+                ex = None
+            msgs, _ = X.oracle_cl(nat, cut, q, pts, ex) if nat else (["native replay driver did not compile"], None)
             if msgs:
                 seen.add(key)
             rep.violation(key, f"CellList cutoff {cut}, query {q}, points {pts}: " + "; ".join(msgs[:3]), {"kind": "cl", "cutoff": cut, "q": q, "points": pts}, reproduced=bool(msgs))
@@ -319,7 +323,8 @@ def replay(d):
         if d["kind"] == "ext":
             msgs, _ = X.oracle_ext(nat, X.CELLS[d["cell"]], d["pbc"], d["cutoff"], d["f"])
         else:
-            msgs, _ = X.oracle_cl(nat, d["cutoff"], d["q"], d["points"])
+            ex = (F(float(d["cutoff"])), [F(float(v)) for v in d["q"]], [[F(float(v)) for v in p] for p in d["points"]])
+            msgs, _ = X.oracle_cl(nat, d["cutoff"], d["q"], d["points"], ex)
         return bool(msgs), "; ".join(msgs[:5]) or "ok"
     if d["kind"] == "matches":
         dd = {k: v for k, v in d.items() if k != "kind"}
